@@ -5,7 +5,7 @@ from checks import codec_common as cc
 
 THEOREMS = ['success_iff', 'status_exposed', 'error_message', 'other_type', 'no_success_on_wrong_type', 'statusable_complete', 'error_message_type']
 MODULES = ['LLRP.Model.SendFor', 'LLRP.Model.Codec', 'LLRP.Model.Schema', 'LLRP.Model.Bytes']
-RULE = ('a scripted peer (hand-built frames) answers real Client.SendFor calls: all 46x46 (expected type, reply type) pairs with generated payloads plus reserved/zero type codes; '
+RULE = ('a scripted peer (hand-built frames) answers real Client.SendFor calls: all 43x43 (expected type, reply type) pairs over the types a caller can be handed (KeepAlive, ROAccessReport, ReaderEventNotification are never delivered as replies: C03) with generated payloads plus reserved/zero type codes; '
         'status codes 0..65535 (every 7th in quick, all in thorough) through status-only responses and through ERROR_MESSAGE, with descriptions and nested FieldError/ParameterError shapes; '
         'responses with fields around the status and truncated payloads. Each observation (nil | status <LLRPStatus value> | err, and the caller\'s response value afterwards) is judged by the Lean monitor check-sendfor. '
         'distinct = distinct request lines; non-trivial = the model outcome is not typeerr')
